@@ -26,8 +26,9 @@ theorem format_of_other_locations_irrelevant {κ : Type} (m : κ → Bool) (e1 e
 
 /-- regenerated: `Uncompressed` reaches every backend exactly as the configuration entry of the location has it -/
 theorem gen_store_format (i : Gen.StoreoptsIn) :
-    (C03.genSFL i).uncompressed = i.cfgB "Uncompressed" ∧ (C03.genISFL i).uncompressed = i.cfgB "Uncompressed" := by
-  refine ⟨?_, ?_⟩ <;> rfl
+    (C03.genSFL i).uncompressed = i.cfgB "Uncompressed" ∧ (C03.genISFL i).uncompressed = i.cfgB "Uncompressed" ∧
+    Gen.storeoptsSFLUniform = true ∧ Gen.storeoptsISFLUniform = true := by
+  refine ⟨?_, ?_, C03.gen_store_dispatch.1, C03.gen_store_dispatch.2.1⟩ <;> optwire
 
 example : converters (mergedWith ⟨1, "", "", "", true, 0, 0, false, false, false, true, false, false⟩ { defaults with uncompressed := true }) = [] := by
   decide
